@@ -253,6 +253,24 @@ func runProve(po proveOpts) (res proveResult) {
 	os.MkdirAll(scratch, 0o755)
 	var jobs []*obJob
 	for _, v := range verifiers {
+		// feasibility of return paths is sampled (at most 4 per function): it only guards
+		// against a verification that is vacuous on every path
+		var paths []*Oblig
+		for _, o := range v.obligs {
+			if o.Class == "vacuity-path" {
+				paths = append(paths, o)
+			}
+		}
+		if len(paths) > 4 {
+			keep := map[*Oblig]bool{paths[0]: true, paths[len(paths)-1]: true, paths[len(paths)/3]: true, paths[2*len(paths)/3]: true}
+			var kept []*Oblig
+			for _, o := range v.obligs {
+				if o.Class != "vacuity-path" || keep[o] {
+					kept = append(kept, o)
+				}
+			}
+			v.obligs = kept
+		}
 		for _, o := range v.obligs {
 			jobs = append(jobs, &obJob{v: v, o: o, values: v.modelSymbolsOf(o)})
 		}
